@@ -319,7 +319,8 @@ class HyperV(Parser):
     name = "hyperv"
 
     def __init__(self):
-        self.nodes = [{"id": 1, "parent": 0, "tbl": 1, "key": "k", "type": enc_hyperv.T_INT, "value": 5}]
+        self.nodes = [{"id": 1, "parent": 0, "tbl": 1, "key": "k", "type": enc_hyperv.T_INT, "value": 5},
+                      {"id": 2, "parent": 0, "tbl": 2, "key": "j", "type": enc_hyperv.T_INT, "value": 6}]
 
     def gates(self):
         def sf(val, n):
@@ -330,25 +331,34 @@ class HyperV(Parser):
                 "object_table_signature": [("sig", "objtab", x) for x in sf(enc_hyperv.SIG_OBJTAB, 4)],
                 # a second object table reached through an ObjectTable entry, placed behind or in front of the first one
                 "chained_object_table_signature": [("chain", where, x) for where in (0x1800, 0x60000) for x in sf(enc_hyperv.SIG_OBJTAB, 4)[::3] + [0, enc_hyperv.SIG_KEYTAB]],
-                "key_table_signature": [("sig", "keytab", x) for x in sf(enc_hyperv.SIG_KEYTAB, 2)]}
+                "key_table_signature": [("sig", "keytab", x) for x in sf(enc_hyperv.SIG_KEYTAB, 2)],
+                # one key table only: the superseded copy of table 1 (listed behind or in front of the current one), the table with index 2
+                "other_key_table_signature": [("ktsig", which, x) for which in ("stale-after", "stale-before", "second") for x in sf(enc_hyperv.SIG_KEYTAB, 2)[::2] + [0]]}
 
     def open(self, variants):
         from dissect.hypervisor.descriptor.hyperv import HyperVFile
-        sigs, version, chain = {}, 0x400, None
+        sigs, version, chain, kt = {}, 0x400, None, None
         for v in variants.values():
             if v[0] == "sig":
                 sigs[v[1]] = v[2]
             elif v[0] == "chain":
                 chain = v
+            elif v[0] == "ktsig":
+                kt = v
             else:
                 version = v[1]
-        tables, fobjs, _ = enc_hyperv.plan_tables(self.nodes)
+        # the valid file has two key tables and a superseded copy of the first
+        tables, fobjs, _ = enc_hyperv.plan_tables(self.nodes, stale={1}, newer_first=not (kt and kt[1] == "stale-before"))
+        if kt:
+            for t in tables:
+                if (t["idx"] == 2) if kt[1] == "second" else (t["idx"] == 1 and t["seq"] == 3):
+                    t["sig"] = kt[2]
         # the valid file already chains a second (empty) object table, at either placement
         where = chain[1] if chain else 0x1800
         b = enc_hyperv.build(tables, fobjs, hdr_seqs=(9, 3), sigs=sigs, version=version, extra_objects=[(enc_hyperv.OBJ_OBJTAB, where, 0x1000, 1)],
                              more_objtabs={where: [(enc_hyperv.OBJ_FREE, 0, 0, 0)]}, more_sigs=({where: chain[2]} if chain else None))
         h = HyperVFile(io.BytesIO(b))
-        if h["k"].value != 5:
+        if h["k"].value != 5 or h["j"].value != 6:
             raise AssertionError("value")
 
 
@@ -514,7 +524,8 @@ _ORDER = {
     "vhdx": ["file_identifier", "header_signature", "region_signature_1", "region_signature_2", "metadata_region", "metadata_signature",
              "required_item", "unknown_required_item", "locator_type", "parent_resolved", "bat_region"],
     "vdi": ["signature"], "hds": ["signature"], "hdd": ["descriptor_present", "image_type", "parent_image_type"], "vmdk-sparse": ["magic", "footer_magic"],
-    "hyperv": ["header_signature", "version", "replay_log_signature", "object_table_signature", "chained_object_table_signature", "key_table_signature"],
+    "hyperv": ["header_signature", "version", "replay_log_signature", "object_table_signature", "chained_object_table_signature", "key_table_signature",
+               "other_key_table_signature"],
     "envelope": ["magic", "version", "attr_keyinfo", "attr_ciphername", "attr_keyhash", "cipher", "aead_footer_version"],
     "keystore": ["mode_present", "mode_none"], "keysafe": ["identifier", "locator_kind", "pass2key", "phrase_cipher", "hmac"],
 }
